@@ -334,6 +334,7 @@ class Finding:
 
 class Check:
     """Collects rule instances for one property and implements the verdict protocol of DESIGN 3."""
+    last_code = 2
 
     def __init__(self, prop, tier='quick', repo=None):
         self.prop = prop
@@ -458,6 +459,8 @@ class Check:
         with open(os.path.join(EVIDENCE_DIR, f'{self.prop}.json'), 'w') as fh:
             json.dump(evidence, fh, indent=1, default=str)
 
+        Check.last_code = (1 if any(f.key == replay_key for f in self.findings) else 0) if replay_key is not None else \
+            (1 if new else (2 if self.unrecognised else 0))
         print(f'[{self.prop}] tier={self.tier} repo={self.repo.root} rules={len(self.rules_doc)} instances={len(self.instances)} '
               f'ok={n_ok} known={len(old)} violations={len(new)} unrecognised={len(self.unrecognised)} '
               f'wall={evidence["wall_s"]}s')
